@@ -25,7 +25,7 @@ import (
 
 // Fault is one modification of the ciphertext stream (C26).
 type Fault struct {
-	Kind   string `json:"kind"`   // bitflip | setbyte | truncate | drop | dup | swap | insert | inflate | setlength | random
+	Kind   string `json:"kind"`   // bitflip | setbyte | truncate | drop | dup | swap | insert | inflate | setlength | random | forge
 	Packet int    `json:"packet"` // packet index the fault is aimed at
 	Off    int    `json:"off"`    // offset inside the packet (modulo its length), bit offset for bitflip
 	Val    int    `json:"val"`
@@ -145,6 +145,10 @@ func gen(r *rand.Rand, prop, tier string, index int) any {
 	kinds := []string{"bitflip", "bitflip", "bitflip", "setbyte", "truncate", "drop", "dup", "swap", "insert", "inflate", "setlength", "setlength", "random"}
 	for i := 0; i < nf; i++ {
 		s.Faults = append(s.Faults, Fault{Kind: kinds[r.IntN(len(kinds))], Packet: r.IntN(n), Off: r.IntN(1 << 20), Val: r.IntN(256)})
+	}
+	if r.IntN(5) == 0 {
+		// a key-holding peer instead of an on-path attacker
+		s.Faults = []Fault{{Kind: "forge", Packet: r.IntN(n), Off: r.IntN(1 << 20), Val: r.IntN(256)}}
 	}
 	return s
 }
@@ -274,10 +278,10 @@ func runC25(c *core.Ctx, s *Scenario) {
 	c.Nontrivial()
 	rt.Event("c25 %s|%s %s start=%d strict=%v sizes=%v", s.Cipher, s.MAC, s.Hash, s.StartSeq, s.Strict, s.Sizes)
 	d := dirIndex(s)
+	// strict mode: NEWKEYS reset the counters (checked below); the packet
+	// sequence then continues from StartSeq like in the other mode, so that
+	// wrapping is covered with the strict flag set too
 	start := s.StartSeq
-	if s.Strict {
-		start = 0 // strict mode: NEWKEYS reset the counters
-	}
 	_, ws := st.w.Seq()
 	rs, _ := st.r.Seq()
 	if s.Strict && (ws != 0 || rs != 0) {
@@ -293,22 +297,21 @@ func runC25(c *core.Ctx, s *Scenario) {
 	mon.SetKeys(d, s.Cipher, s.MAC, wiremon.KexResult{K: st.k, H: st.h, Hash: st.hash}, st.id, false)
 	mon.KeepPayloads = true
 	var seen [][]byte
-	mon.OnPacket = func(p *wiremon.Packet) { seen = append(seen, p.Payload) }
+	var pads []int
+	mon.OnPacket = func(p *wiremon.Packet) { seen = append(seen, p.Payload); pads = append(pads, p.Padding) }
 	st.dir.Tap = func(p []byte) { mon.Feed(d, p) }
 	st.dir.FragDen = s.FragDen
 
 	written := 0
 	done := false
+	wfailed := false
 	go func() {
 		rt.SetName("writer")
 		for i, n := range s.Sizes {
 			p := payload(s.KeySeed, i, n)
 			if err := st.w.WritePacket(p); err != nil {
-				oracle := "write-refused"
-				if n > maxPacket-24 {
-					oracle = "roundtrip-near-maxpacket"
-				}
-				c.Violate(prop, oracle, "[%s %s] the writer refused a payload of %d bytes (within the 1..maxPacket range): %v", s.Cipher, s.MAC, n, err)
+				wfailed = true
+				c.Violate(prop, "write-refused", "[%s %s] the writer refused a payload of %d bytes (within the 1..maxPacket range): %v", s.Cipher, s.MAC, n, err)
 				return
 			}
 			written++
@@ -324,11 +327,39 @@ func runC25(c *core.Ctx, s *Scenario) {
 			if k < len(s.Sizes) {
 				n := s.Sizes[k]
 				oracle := "roundtrip"
+				detail := ""
 				if n > maxPacket-24 {
-					// the top of the range: payload + padding_length byte + padding exceeds maxPacket
-					oracle = "roundtrip-near-maxpacket"
+					// the top of the range: where payload + padding_length
+					// byte + padding (the packet_length field the writer
+					// put on the wire, as the independent decoder sees
+					// it) exceeds maxPacket the failure is the recorded
+					// near-maxPacket finding; a packet whose length
+					// field is within maxPacket has to round-trip.
+					for i := 0; i < 1<<16 && len(pads) <= k && !wfailed && !mon.Stopped; i++ {
+						rt.ForceYield()
+					}
+					if len(pads) > k {
+						pl := 1 + n + pads[k]
+						detail = fmt.Sprintf(", packet_length %d", pl)
+						if pl > maxPacket {
+							oracle = "roundtrip-near-maxpacket"
+						}
+					} else if mon.Stopped {
+						// the decoder gave up earlier (its own report stands):
+						// the smallest packet_length RFC 4253 section 6 allows
+						// for this payload decides
+						blk := wiremon.BlockSize(s.Cipher)
+						pl := 1 + n + 4
+						for (4+pl)%blk != 0 {
+							pl++
+						}
+						detail = fmt.Sprintf(", smallest legal packet_length %d", pl)
+						if pl > maxPacket {
+							oracle = "roundtrip-near-maxpacket"
+						}
+					}
 				}
-				c.Violate(prop, oracle, "[%s %s] the reader failed on packet #%d (payload %d bytes, within the 1..maxPacket range) although the stream is unmodified: %v", s.Cipher, s.MAC, k, n, err)
+				c.Violate(prop, oracle, "[%s %s] the reader failed on packet #%d (payload %d bytes, within the 1..maxPacket range%s) although the stream is unmodified: %v", s.Cipher, s.MAC, k, n, detail, err)
 			}
 			break
 		}
@@ -390,6 +421,10 @@ func runC26(c *core.Ctx, s *Scenario) {
 	}
 	st.w.SetSeq(0, start)
 	st.r.SetSeq(start, 0)
+	if len(s.Faults) > 0 && s.Faults[0].Kind == "forge" {
+		runForge(c, s, st, start)
+		return
+	}
 	// phase 1: the writer produces the ciphertext; the link holds it back
 	st.dir.Stall()
 	var bounds []int // end offset of each packet in the stream
@@ -558,6 +593,103 @@ func runC26(c *core.Ctx, s *Scenario) {
 	}
 	finished = true
 	c.State("%s|%s first=%d returned=%d", s.Cipher, s.MAC, first, returned)
+}
+
+// runForge (C26, "for every byte stream"): the stream comes from a peer that
+// holds the session keys but is not an honest writer. The independent
+// encoder (wiremon.Seal) frames and authenticates packet bodies of the
+// harness's choosing: legal ones with any legal amount of padding, and one
+// whose padding_length byte is a boundary value around the body size. Such
+// streams pass the MAC/tag check, so they are the only ones that reach the
+// padding bounds checks of the authenticated modes. Oracle: no panic, and a
+// returned payload is exactly the bytes between the padding_length byte and
+// the padding the body declares.
+func runForge(c *core.Ctx, s *Scenario, st *setup, start uint32) {
+	const prop = "C26"
+	if (s.Cipher == "aes128-cbc" || s.Cipher == "3des-cbc") && strings.Contains(s.MAC, "-etm@") {
+		return // framed differently by the package (recorded C25 finding): nothing authentic can be forged
+	}
+	d := dirIndex(s)
+	enc := wiremon.New()
+	enc.Fail = func(oracle, msg string) {}
+	enc.SkipVersion(d)
+	enc.SetSeq(d, start)
+	if s.Cipher != "none" {
+		enc.SetKeys(d, s.Cipher, s.MAC, wiremon.KexResult{K: st.k, H: st.h, Hash: st.hash}, st.id, false)
+	}
+	f := s.Faults[0]
+	r := rand.New(rand.NewPCG(s.KeySeed, uint64(f.Off)))
+	bad := f.Packet % len(s.Sizes)
+	var stream []byte
+	var bodies [][]byte
+	for i, n := range s.Sizes {
+		var body []byte
+		if i == bad {
+			// body size: small aligned sizes, so that every padding_length
+			// value 0..255 relates to it as below / equal / one off / above
+			l := 1 + f.Off%48
+			for !enc.Aligned(d, l) {
+				l++
+			}
+			body = detBytes(s.KeySeed+uint64(i), l)
+			if l > 1 {
+				body[1] = 94 // not a message type the transport interprets or skips itself
+			}
+			body[0] = byte([]int{l - 2, l - 1, l, l + 1, 0, 3, 4, 255, l / 2, f.Val}[f.Val%10])
+		} else {
+			if n > 2000 {
+				n = 2000
+			}
+			pl := payload(s.KeySeed, i, n)
+			pad := 4
+			for !enc.Aligned(d, 1+len(pl)+pad) {
+				pad++
+			}
+			// any legal amount of padding (RFC 4253 section 6: up to 255)
+			if blk := wiremon.BlockSize(s.Cipher); r.IntN(2) == 0 {
+				pad += blk * r.IntN((255-pad)/blk+1)
+			}
+			body = append(append([]byte{byte(pad)}, pl...), detBytes(uint64(i)+3, pad)...)
+		}
+		w := enc.Seal(d, body)
+		if w == nil {
+			c.Violate(prop, "harness-seal", "[%s %s] the independent encoder could not frame a body of %d bytes", s.Cipher, s.MAC, len(body))
+			return
+		}
+		stream = append(stream, w...)
+		bodies = append(bodies, body)
+	}
+	c.Nontrivial()
+	rt.Fault("wire-forged-authentic-packet")
+	rt.Event("c26 forge %s|%s bodies=%d bad=%d len=%d padbyte=%d", s.Cipher, s.MAC, len(bodies), bad, len(bodies[bad]), bodies[bad][0])
+	rb := st.rc.In()
+	rb.FragDen = s.FragDen
+	rb.Inject(stream)
+	rb.CloseWrite()
+	returned := 0
+	for returned < len(bodies) {
+		p, err := st.r.ReadPacket()
+		if err != nil {
+			if returned < bad {
+				rt.Probe("forged-legal-packet-rejected")
+			}
+			rt.Event("reader error at packet %d: %v", returned, err)
+			break
+		}
+		body := bodies[returned]
+		pad := int(body[0])
+		if pad+1 >= len(body) || !bytes.Equal(p, body[1:len(body)-pad]) {
+			c.Violate(prop, "forged-wrong-payload", "[%s %s] packet %d of an authentic stream has a body of %d bytes with padding_length %d; the reader returned %d bytes that are not the payload the body declares", s.Cipher, s.MAC, returned, len(body), pad, len(p))
+			return
+		}
+		if returned == bad {
+			rt.Probe("forged-boundary-packet-accepted")
+		} else {
+			rt.Probe("forged-legal-packet-read")
+		}
+		returned++
+	}
+	c.State("forge %s|%s bad=%d returned=%d", s.Cipher, s.MAC, bad, returned)
 }
 
 func runHarness(c *core.Ctx, scn any) {
